@@ -146,7 +146,7 @@ impl World {
             delivered: 0,
             activity: 0,
             trace: VecDeque::new(),
-            trace_cap: 80,
+            trace_cap: std::env::var("VERIF_TRACE_CAP").ok().and_then(|v| v.parse().ok()).unwrap_or(80),
             next_peer_id: 1,
         }
     }
@@ -437,6 +437,14 @@ impl World {
         let before = self.activity;
         self.fire_due(hook);
         self.pump(hook, 10_000);
+        if std::env::var("VERIF_DEBUG_MATCHED").is_ok() && self.client.is_some() && !self.dead {
+            let c = self.c();
+            let mem: Vec<String> = c.peers.matched_blocks().read().map(|m| m.iter().map(|(k, (p, b))| format!("{:x}:{}:{}", k, p, b.is_some()).chars().skip(0).take(8).collect::<String>() + &format!(":{}:{}", p, b.is_some())).collect()).unwrap_or_default();
+            let line = format!("STATE min_filtered {} earliest {:?} latest {:?} scripts {:?} memory {:?}", c.storage.get_min_filtered_block_number(),
+                c.storage.get_earliest_matched_blocks().map(|(s, n, v)| (s, n, v.iter().map(|(_, p)| *p).collect::<Vec<_>>())), c.storage.get_latest_matched_blocks().map(|(s, n, v)| (s, n, v.len())),
+                c.storage.get_filter_scripts().iter().map(|s| s.block_number).collect::<Vec<_>>(), mem);
+            self.log_event(line);
+        }
         self.activity - before
     }
 
